@@ -126,6 +126,16 @@ func (s *Storage) Delete(key string) error {
 	return nil
 }
 
+// FailNextSet makes the next Set call return an injected error (nothing is stored)
+func (s *Storage) FailNextSet() {
+	s.mu.Lock()
+	if s.FailSet == nil {
+		s.FailSet = map[int]bool{}
+	}
+	s.FailSet[s.nSet+1] = true
+	s.mu.Unlock()
+}
+
 // FailNextGet makes the next Get call return an injected error
 func (s *Storage) FailNextGet() {
 	s.mu.Lock()
